@@ -108,6 +108,24 @@ let rec run_case (kind : string) (body : sexp list) : string * string =
         else sts in
       let connected = (match atom (List.nth body 1) with "never" | "dead" -> false | _ -> true) in
       (show_segs (run_finalize_segs_from connected sh sts), "UNSPECIFIED")
+  | "share" ->
+      (* (share FORM SRC share|publish (ops OP...)) *)
+      let src = (match List.nth body 1 with Atom "hot" -> ShHot | c -> ShCold (List.map ev_of (args c))) in
+      let m = (match atom (List.nth body 2) with "publish" -> MPublish | _ -> MShare) in
+      let h = List.map (fun op -> match head op with
+          | "sub" -> ShSub
+          | "unsub" -> ShUnsub (narg (List.hd (args op)))
+          | "src" -> ShSrc (ev_of (List.hd (args op)))
+          | "connect" -> ShConnect
+          | "closed" -> ShClosed (narg (List.hd (args op)))
+          | x -> failwith ("bad share op " ^ x)) (args (List.nth body 3)) in
+      let show l = String.concat " " (List.map (function
+          | SSub -> "(sub)"
+          | STap v -> let b = Buffer.create 8 in show_val b v; "(tap " ^ Buffer.contents b ^ ")"
+          | SDeliver (i, e) -> let b = Buffer.create 8 in show_ev b e; Printf.sprintf "(d %d %s)" (int_of_nat i) (Buffer.contents b)
+          | SRet b -> if b then "(rb #t)" else "(rb #f)"
+          | SMark -> "|") l) in
+      (show (run_share false m src h), show (run_share true m src h))
   | "indep" ->
       (* (indep FORM SRC (ops U...) (seq K)|(nested K)) *)
       let rec lsrc_of (x : sexp) : lsrc =
@@ -281,6 +299,12 @@ let oracle (kind : string) (body : sexp list) (impl : string) : string option =
        | S (S O) -> Some "reject:C17 a leaf appended to an unsubscribed composite (or held by an unsubscribed subscription) was left running"
        | S (S (S O)) -> Some "known:reopened is_closed() answered true and later false (a composite that was never unsubscribed re-opened by append)"
        | _ -> Some "reject:C17 is_closed() answered true and later false")
+  | "share" ->
+      (* the recorded gap: the implementation behaves as the faithful model, which differs from the ideal one *)
+      let (m, s) = run_case kind body in
+      if impl = s then Some "ok"
+      else if impl = m then Some "known:still-driven share(): after its last subscriber has unsubscribed the shared observable keeps its source connected and driven"
+      else Some "reject:C11 neither the specified nor the recorded behaviour"
   | "tree" ->
       if String.length impl >= 5 && String.sub impl 0 5 = "PANIC" then Some "reject:panic" else
       let t = (match parse ("(" ^ impl ^ ")") with List l -> List.map ev_of l | _ -> []) in
